@@ -10,7 +10,7 @@ cd "$ROOT"
 todo=()
 for i in $(seq -w 1 20); do
   id=C$i; out=/tmp/seed-c${i}${L}.out
-  if [ -d "$out" ] && [ -f "$out/patch.diff" ] && [ ! -d "seeded/$id-$N" ]; then
+  if [ -d "$out" ] && [ -f "$out/patch.diff" ] && [ -f "$out/notes.md" ] && [ -f "$out/demo.sh" ] && [ ! -d "seeded/$id-$N" ]; then
     mkdir -p "seeded/$id-$N"; cp "$out"/* "seeded/$id-$N/"
   fi
   if [ -d "seeded/$id-$N" ] && [ ! -f "/tmp/sv-$id-$N$SUF.log" ]; then todo+=("$id"); fi
